@@ -378,3 +378,490 @@ Proof.
   - exists (a ++ VPtr q :: n). rewrite E', Hn, <- app_assoc. reflexivity.
   - intros G0. rewrite E'. apply (good_swap a c q b). rewrite <- E. exact (G G0).
 Qed.
+
+(* ------------------------------------------------------------------ one unfolding of the compiler *)
+(* the body of [compile_expression (S f)] / [compile_quasiquote (S f)] with the recursive
+   calls at fuel [f] abstracted as [ce] / [cq] (checked by [reflexivity] below) *)
+Section Forms.
+Variable ce : lambda -> bool -> cell -> M lambda.
+Variable cq : lambda -> cell -> N -> M lambda.
+
+Definition f_quote (l : lambda) (x : cell) : M lambda :=
+  dom v <- maybe_put_cell_m x;
+  ret (emit (emit (emit_op l OMovImmediate) v) VAcc).
+Definition f_store (l : lambda) (symbol : cell) : M lambda :=
+  dom sym_ref <- put_cell_m symbol;
+  let l1 := emit (emit_op l OMov) VAcc in
+  dom operand <- location_operand l1 sym_ref;
+  ret (emit (emit (emit_op (emit l1 operand) OMovImmediate) VVoid) VAcc).
+Fixpoint f_body (b : cell) (lam : lambda) {struct b} : M lambda :=
+  match b with
+  | CPair x r => dom lam' <- ce lam (is_nil r) x; f_body r lam'
+  | _ => ret lam
+  end.
+Definition f_lambda (iof : lambda) (expr : cell) (is_define : bool) : M lambda :=
+  dom rest <- lift (cdr_e expr);
+  if is_nil rest then fail E_OTHER else
+  dom head <- lift (car_e rest);
+  dom body <- lift (cdr_e rest);
+  dom formal_ast <- (if is_define then lift (cdr_e head) else ret head);
+  dom (formals, vararg) <- (if is_nil formal_ast then ret ([], false) else compile_formals formal_ast []);
+  dom free <- lift (free_symbols expr);
+  dom free_refs <- put_cells free;
+  dom internal <- lift (internally_defined_symbols body);
+  dom internal_refs <- put_cells internal;
+  let lam0 := set_desc (lambda_from_iof formals internal_refs iof free_refs vararg) formal_ast in
+  let lam1 := if vararg then emit_op lam0 OVarArg else lam0 in
+  let lam2 := emit_op lam1 OEnter in
+  if is_nil body then fail E_OTHER else
+  dom lam3 <- f_body body lam2;
+  dom lp <- put_lambda (emit_op lam3 ORet);
+  ret (emit_op (emit (emit (emit_op iof OMovImmediate) lp) VAcc) OClosureAcc).
+Definition f_if_core (l : lambda) (tail : bool) (test conseq : cell) (alt : option cell) : M lambda :=
+  dom l1 <- ce l false test;
+  let l2 := emit_op l1 OJnt in
+  let jnt_operand := bc_len l2 in
+  let l3 := emit l2 (VPtr CAFEBEEF) in
+  dom l4 <- ce l3 tail conseq;
+  let l5 := emit_op l4 OJmp in
+  let jmp_operand := bc_len l5 in
+  let l6 := emit l5 (VPtr CAFEBEEF) in
+  let l7 := bc_patch l6 jnt_operand (VPtr (bc_len l6)) in
+  dom l8 <- (match alt with
+             | Some a => ce l7 tail a
+             | None => ret (emit (emit (emit_op l7 OMovImmediate) VVoid) VAcc)
+             end);
+  ret (bc_patch l8 jmp_operand (VPtr (bc_len l8))).
+Definition f_if (l : lambda) (tail : bool) (rest : cell) : M lambda :=
+  if Compile.is_nil rest || negb (Compile.is_list rest) then fail E_OTHER else
+  dom (test, conseq, alt) <-
+    (match cell_iter rest with
+     | [t; c] => ret (t, c, None)
+     | [t; c; a] => ret (t, c, Some a)
+     | _ => fail E_OTHER
+     end);
+  f_if_core l tail test conseq alt.
+Fixpoint f_args (r : cell) (lam : lambda) (n : N) {struct r} : M (lambda * N) :=
+  match r with
+  | CPair x r' => dom lam' <- ce lam false x; f_args r' (emit_op lam' OPushAcc) (n + 1)
+  | _ => ret (lam, n)
+  end.
+Definition f_app (l : lambda) (tail : bool) (proc rest : cell) : M lambda :=
+  dom (l1, n) <- f_args rest l 0;
+  let l2 := emit (emit_op l1 OPushImmediate) (VArgc n) in
+  dom l3 <- ce l2 false proc;
+  ret (emit_op l3 (if tail then OTCallAcc else OCallAcc)).
+Definition f_defsyntax (l : lambda) (e : cell) : M lambda :=
+  dom tr <- lift (transform_try_new e);
+  fun s =>
+    let '(mid, x) := new_macro (st s) tr in
+    let '(tp, h) := heap_put (hp s) (VMacro mid) in
+    (dom sym_ref <- put_cell_m (tr_keyword tr);
+     dom p <- as_ptr sym_ref;
+     dom slot <- get_binding p;
+     ret (emit (emit (emit_op (emit (emit (emit_op l OMovImmediate) tp) (VGSlot slot))
+                              OMovImmediate) VVoid) VAcc))
+    (with_store (with_heap s h) x).
+Definition f_define (l : lambda) (e rest : cell) : M lambda :=
+  if Compile.is_nil rest then fail E_OTHER else
+  dom r1 <- lift (cdr_e rest);
+  if Compile.is_nil r1 then fail E_OTHER else
+  dom target <- lift (car_e rest);
+  dom (l1, symbol) <-
+    (match target with
+     | CSym _ =>
+         dom r2 <- lift (cdr_e r1);
+         if negb (Compile.is_nil r2) then fail E_OTHER else
+         dom v <- lift (car_e r1);
+         dom l1 <- ce l false v; ret (l1, target)
+     | CPair name _ => dom l1 <- f_lambda l e true; ret (l1, name)
+     | _ => fail E_OTHER
+     end);
+  if is_primitive_symbol symbol then fail E_OTHER else f_store l1 symbol.
+Definition f_set (l : lambda) (rest : cell) : M lambda :=
+  match cell_iter rest with
+  | [variable; expression] =>
+      if negb (Compile.is_symbol variable) || is_primitive_symbol variable then fail E_OTHER else
+      dom l1 <- ce l false expression;
+      f_store l1 variable
+  | _ => fail E_OTHER
+  end.
+
+Definition f_expr (l : lambda) (tail : bool) (e : cell) : M lambda :=
+  match e with
+  | CSym _ =>
+      if is_primitive_symbol e then fail E_OTHER else
+      dom sym_ref <- put_cell_m e;
+      dom operand <- location_operand l sym_ref;
+      ret (emit (emit (emit_op l OMov) operand) VAcc)
+  | CNil => fail E_OTHER
+  | CProc _ | CVoid | CUndef | CMacro | CCont => fail E_OTHER
+  | CBool _ | CChar _ | CNum _ | CStr _ | CVec _ => f_quote l e
+  | CPair proc rest =>
+      if sym_eq proc "define" then f_define l e rest
+      else if sym_eq proc "define-syntax" then f_defsyntax l e
+      else if sym_eq proc "lambda" || Datum.sym_is proc [955] then f_lambda l e false
+      else if sym_eq proc "quasiquote" then
+        dom x <- lift (car_e rest); cq l x 0
+      else if sym_eq proc "quote" then
+        dom x <- lift (car_e rest); f_quote l x
+      else if sym_eq proc "if" then f_if l tail rest
+      else if sym_eq proc "set!" then f_set l rest
+      else f_app l tail proc rest
+  end.
+
+Section QLoops.
+Variable depth : N.
+Variable count : N.
+Fixpoint f_items (its : list cell) (lam : lambda) {struct its} : M lambda :=
+  match its with
+  | [] => ret lam
+  | it :: r => dom lam' <- cq (emit_op lam OPushAcc) it depth;
+               f_items r (emit_op lam' OVPushAcc)
+  end.
+Fixpoint f_elems (r : cell) (lam : lambda) (cnt : N) {struct r} : M (lambda * N * cell) :=
+  match r with
+  | CPair x r' => dom lam' <- cq lam x depth;
+                  f_elems r' (emit_op lam' OPushAcc) (cnt + 1)
+  | other => ret (lam, cnt, other)
+  end.
+Fixpoint f_conses (k : nat) (i : N) (lam : lambda) : lambda :=
+  match k with
+  | O => lam
+  | S k' => let lam1 := emit_op lam OCons in
+            f_conses k' (i + 1) (if i <? count - 1 then emit_op lam1 OPushAcc else lam1)
+  end.
+End QLoops.
+Definition f_quasi (l : lambda) (e : cell) (depth : N) : M lambda :=
+  match e with
+  | CVec items =>
+      dom nv <- vec_new [];
+      dom nvp <- hput nv;
+      let l1 := emit (emit (emit_op l OMovImmediate) nvp) VAcc in
+      f_items depth items l1
+  | CPair a d =>
+      let is_unq := Datum.sym_is a UNQUOTE in
+      if is_unq && (depth =? 0) then
+        dom d1 <- lift (cdr_e e); dom x <- lift (car_e d1);
+        ce l false x
+      else
+        let depth1 := if is_unq then depth - 1 else depth in
+        let depth2 := if Datum.sym_is a QUASIQUOTE then depth1 + 1 else depth1 in
+        dom (l1, count, tailc) <- f_elems depth2 e l 0;
+        dom tv <- maybe_put_cell_m tailc;
+        let l2 := emit (emit_op l1 OPushImmediate) tv in
+        ret (f_conses count (N.to_nat count) 0 l2)
+  | _ => f_quote l e
+  end.
+End Forms.
+
+Lemma compile_expression_S f l tail e :
+  compile_expression (S f) l tail e = f_expr (compile_expression f) (compile_quasiquote f) l tail e.
+Proof. reflexivity. Qed.
+Lemma compile_quasiquote_S f l e d :
+  compile_quasiquote (S f) l e d = f_quasi (compile_expression f) (compile_quasiquote f) l e d.
+Proof. destruct e; reflexivity. Qed.
+
+(* ------------------------------------------------------------------ the forms keep finv and [ext] *)
+Lemma pres_bind_fail {A B} e (k : A -> M B) (R : B -> Prop) : pres (bindM (fail e) k) R.
+Proof. intros s F _. exact F. Qed.
+Lemma pres_ext_trans {l l1 : lambda} (m : M lambda) : ext l l1 -> pres m (ext l1) -> pres m (ext l).
+Proof. intros H Hm. apply (pres_weaken _ _ _ Hm). intros l2 H2. exact (ext_trans _ _ _ H H2). Qed.
+
+Lemma seg_movimm v : opnd v = true -> seg_ok [VOp OMovImmediate; v; VAcc] = true.
+Proof. destruct v; try discriminate; reflexivity. Qed.
+Lemma seg_pushimm v : opnd v = true -> seg_ok [VOp OPushImmediate; v] = true.
+Proof. destruct v; try discriminate; reflexivity. Qed.
+
+(* bc_ok of a finished lambda, and its installation *)
+Lemma good_finish l : good (l_bc l) -> bc_ok (l_bc (lambda_finish l)).
+Proof. intros [H _]. cbn [lambda_finish l_bc]. apply chain_bc_ok, H. Qed.
+
+Lemma pres_put_lambda l : good (l_bc l) -> pres (put_lambda l) isptr.
+Proof.
+  intros G s F _. unfold put_lambda. cbn [new_lam].
+  destruct (heap_put (hp s) (VLambda (next_id (st s)))) as [p h] eqn:E. cbn [post].
+  rewrite <- (mem_self s) in F.
+  pose proof (finv_mem_new_lam s (hp s) (st s) (lambda_finish l) F (good_finish l G)) as F1.
+  exact (finv_mem_put s (hp s) _ (VLambda (next_id (st s))) p h F1 I E).
+Qed.
+
+Section Step.
+Variable ce : lambda -> bool -> cell -> M lambda.
+Variable cq : lambda -> cell -> N -> M lambda.
+Hypothesis IHe : forall l tail e, pres (ce l tail e) (ext l).
+Hypothesis IHq : forall l e d, pres (cq l e d) (ext l).
+
+Lemma f_quote_ok l x : pres (f_quote l x) (ext l).
+Proof.
+  unfold f_quote. eapply pres_bind; [apply pres_maybe_put_cell_m|intros v Hv]. apply pres_ret.
+  apply (ext_emits l [VOp OMovImmediate; v; VAcc]). apply seg_movimm, Hv.
+Qed.
+
+Lemma f_store_ok l symbol : pres (f_store l symbol) (ext l).
+Proof.
+  unfold f_store. eapply pres_bind; [apply pres_put_cell_m|intros r _]. cbv zeta.
+  eapply pres_bind; [apply pres_location_operand|intros o Ho]. apply pres_ret.
+  apply (ext_emits l [VOp OMov; VAcc; o; VOp OMovImmediate; VVoid; VAcc]).
+  destruct o; try discriminate Ho; reflexivity.
+Qed.
+
+Lemma f_body_ok b : forall lam, pres (f_body ce b lam) (ext lam).
+Proof.
+  induction b; intros lam; cbn [f_body]; try (apply pres_ret; apply ext_refl).
+  eapply pres_bind; [apply IHe|intros lam' H']. apply (pres_ext_trans _ H'). apply IHb2.
+Qed.
+
+Lemma f_lambda_ok iof expr d : pres (f_lambda ce iof expr d) (ext iof).
+Proof.
+  unfold f_lambda. eapply pres_bind; [apply pres_lift|intros rest _].
+  destruct (Compile.is_nil rest); [apply pres_fail|].
+  eapply pres_bind; [apply pres_lift|intros head _].
+  eapply pres_bind; [apply pres_lift|intros body _].
+  eapply pres_bind with (Q := T); [destruct d; [apply pres_lift|apply pres_ret; exact I]|intros formal_ast _].
+  eapply pres_bind with (Q := T);
+    [destruct (Compile.is_nil formal_ast); [apply pres_ret; exact I|apply pres_compile_formals]|intros [formals vararg] _].
+  eapply pres_bind; [apply pres_lift|intros free _].
+  eapply pres_bind; [apply pres_put_cells|intros free_refs _].
+  eapply pres_bind; [apply pres_lift|intros internal _].
+  eapply pres_bind; [apply pres_put_cells|intros internal_refs _]. cbv zeta.
+  destruct (Compile.is_nil body); [apply pres_fail|].
+  set (lam0 := set_desc (lambda_from_iof formals internal_refs iof free_refs vararg) formal_ast).
+  set (lam2 := emit_op (if vararg then emit_op lam0 OVarArg else lam0) OEnter).
+  assert (G2 : good (l_bc lam2)).
+  { unfold lam2. destruct vararg.
+    - apply (good_emits lam0 [VOp OVarArg; VOp OEnter]); [apply good_nil|reflexivity].
+    - apply (good_emits lam0 [VOp OEnter]); [apply good_nil|reflexivity]. }
+  eapply pres_bind; [apply f_body_ok|intros lam3 H3].
+  eapply pres_bind.
+  - apply pres_put_lambda. apply (good_emits lam3 [VOp ORet]); [apply (ext_good _ _ H3 G2)|reflexivity].
+  - intros lp Hlp. apply pres_ret.
+    apply (ext_emits iof [VOp OMovImmediate; lp; VAcc; VOp OClosureAcc]).
+    destruct Hlp as [a ->]. reflexivity.
+Qed.
+
+Lemma f_if_core_ok l tail t c alt : pres (f_if_core ce l tail t c alt) (ext l).
+Proof.
+  unfold f_if_core. eapply pres_bind; [apply IHe|intros l1 H1]. cbv zeta.
+  eapply pres_bind; [apply IHe|intros l4 H4].
+  set (l3 := emit (emit_op l1 OJnt) (VPtr CAFEBEEF)) in *.
+  set (l6 := emit (emit_op l4 OJmp) (VPtr CAFEBEEF)).
+  assert (E13 : ext l1 l3) by (apply (ext_emits l1 [VOp OJnt; VPtr CAFEBEEF]); reflexivity).
+  assert (E46 : ext l4 l6) by (apply (ext_emits l4 [VOp OJmp; VPtr CAFEBEEF]); reflexivity).
+  assert (E06 : ext l l6) by (eapply ext_trans; [exact H1|]; eapply ext_trans; [exact E13|]; eapply ext_trans; [exact H4|exact E46]).
+  destruct H1 as [[n1 B1] G1]. destruct H4 as [[n4 B4] G4].
+  assert (B6 : l_bc l6 = (VPtr CAFEBEEF :: VOp OJmp :: n4) ++ VPtr CAFEBEEF :: (VOp OJnt :: l_bc l1)).
+  { unfold l6. cbn [emit emit_op l_bc]. rewrite B4. reflexivity. }
+  destruct (ext_patch l l6 _ _ _ (bc_len (emit_op l1 OJnt)) (bc_len l6) E06 B6) as [E07 B7].
+  { reflexivity. }
+  { exists (VOp OJnt :: n1). rewrite B1. reflexivity. }
+  set (l7 := bc_patch l6 (bc_len (emit_op l1 OJnt)) (VPtr (bc_len l6))) in *.
+  eapply pres_bind with (Q := ext l7).
+  { destruct alt as [a|]; [apply IHe|]. apply pres_ret.
+    apply (ext_emits l7 [VOp OMovImmediate; VVoid; VAcc]). reflexivity. }
+  intros l8 H8. apply pres_ret.
+  assert (E08 : ext l l8) by (eapply ext_trans; [exact E07|exact H8]).
+  destruct H8 as [[n8 B8] G8].
+  assert (B8' : l_bc l8 = n8 ++ VPtr CAFEBEEF ::
+                 (VOp OJmp :: n4 ++ VPtr (bc_len l6) :: VOp OJnt :: l_bc l1)).
+  { rewrite B8, B7. reflexivity. }
+  refine (proj1 (ext_patch l l8 _ _ _ (bc_len (emit_op l4 OJmp)) (bc_len l8) E08 B8' _ _)).
+  - unfold bc_len. cbn [emit_op emit l_bc]. rewrite B4. unfold l3. cbn [emit_op emit l_bc].
+    rewrite !len_cons', !len_app', !len_cons'. reflexivity.
+  - exists (VOp OJmp :: n4 ++ VPtr (bc_len l6) :: VOp OJnt :: n1). rewrite B1.
+    cbn [app]. rewrite <- app_assoc. reflexivity.
+Qed.
+
+Lemma f_if_ok l tail rest : pres (f_if ce l tail rest) (ext l).
+Proof.
+  unfold f_if. destruct (Compile.is_nil rest || negb (Compile.is_list rest)); [apply pres_fail|].
+  destruct (cell_iter rest) as [|t [|c [|a [|b r]]]]; try apply pres_bind_fail; apply f_if_core_ok.
+Qed.
+
+Lemma f_args_ok r : forall lam n, pres (f_args ce r lam n) (fun p => ext lam (fst p)).
+Proof.
+  induction r; intros lam k; cbn [f_args]; try (apply pres_ret; apply ext_refl).
+  eapply pres_bind; [apply IHe|intros lam' H'].
+  apply (pres_weaken _ _ _ (IHr2 (emit_op lam' OPushAcc) (k + 1))). intros p Hp.
+  eapply ext_trans; [exact H'|]. eapply ext_trans; [|exact Hp].
+  apply (ext_emits lam' [VOp OPushAcc]). reflexivity.
+Qed.
+
+Lemma f_app_ok l tail proc rest : pres (f_app ce l tail proc rest) (ext l).
+Proof.
+  unfold f_app. eapply pres_bind; [apply f_args_ok|intros [l1 n] H1]. cbn [fst] in H1. cbv zeta.
+  eapply pres_bind; [apply IHe|intros l3 H3]. apply pres_ret.
+  eapply ext_trans; [exact H1|]. eapply ext_trans; [|eapply ext_trans; [exact H3|]].
+  - apply (ext_emits l1 [VOp OPushImmediate; VArgc n]). reflexivity.
+  - apply (ext_emits l3 [VOp (if tail then OTCallAcc else OCallAcc)]). destruct tail; reflexivity.
+Qed.
+
+Lemma f_defsyntax_ok l e : pres (f_defsyntax l e) (ext l).
+Proof.
+  unfold f_defsyntax. eapply pres_bind; [apply pres_lift|intros tr _].
+  intros s F _. cbn [new_macro].
+  destruct (heap_put (hp s) (VMacro (next_id (st s)))) as [tp h] eqn:E.
+  rewrite <- (mem_self s) in F.
+  pose proof (finv_mem_new_macro s (hp s) (st s) tr F) as F1.
+  destruct (finv_mem_put s (hp s) _ (VMacro (next_id (st s))) tp h F1 I E) as [F2 [a ->]].
+  cbv iota beta zeta.
+  match goal with |- post (?m _) _ => assert (P : pres m (ext l)) end; [|exact (P _ F2 I)].
+  eapply pres_bind; [apply pres_put_cell_m|intros r _].
+  eapply pres_bind; [apply pres_as_ptr|intros p _].
+  eapply pres_bind; [apply pres_get_binding|intros slot _]. apply pres_ret.
+  apply (ext_emits l [VOp OMovImmediate; VPtr a; VGSlot slot; VOp OMovImmediate; VVoid; VAcc]). reflexivity.
+Qed.
+
+Lemma f_define_ok l e rest : pres (f_define ce l e rest) (ext l).
+Proof.
+  unfold f_define. destruct (Compile.is_nil rest); [apply pres_fail|].
+  eapply pres_bind; [apply pres_lift|intros r1 _].
+  destruct (Compile.is_nil r1); [apply pres_fail|].
+  eapply pres_bind; [apply pres_lift|intros target _].
+  eapply pres_bind with (Q := fun p => ext l (fst p)).
+  - destruct target; try apply pres_fail.
+    + eapply pres_bind; [apply f_lambda_ok|intros l1 H1]. apply pres_ret. exact H1.
+    + eapply pres_bind; [apply pres_lift|intros r2 _].
+      destruct (negb (Compile.is_nil r2)); [apply pres_fail|].
+      eapply pres_bind; [apply pres_lift|intros v _].
+      eapply pres_bind; [apply IHe|intros l1 H1]. apply pres_ret. exact H1.
+  - intros [l1 symbol] H1. cbn [fst] in H1.
+    destruct (is_primitive_symbol symbol); [apply pres_fail|].
+    apply (pres_ext_trans _ H1). apply f_store_ok.
+Qed.
+
+Lemma f_set_ok l rest : pres (f_set ce l rest) (ext l).
+Proof.
+  unfold f_set. destruct (cell_iter rest) as [|v [|x [|y r]]]; try apply pres_fail.
+  destruct (negb (Compile.is_symbol v) || is_primitive_symbol v); [apply pres_fail|].
+  eapply pres_bind; [apply IHe|intros l1 H1]. apply (pres_ext_trans _ H1). apply f_store_ok.
+Qed.
+
+Theorem f_expr_ok l tail e : pres (f_expr ce cq l tail e) (ext l).
+Proof.
+  unfold f_expr. destruct e; try apply pres_fail; try apply f_quote_ok.
+  - (* application and the special forms *)
+    destruct (sym_eq e1 "define"); [apply f_define_ok|].
+    destruct (sym_eq e1 "define-syntax"); [apply f_defsyntax_ok|].
+    destruct (sym_eq e1 "lambda" || Datum.sym_is e1 [955]); [apply f_lambda_ok|].
+    destruct (sym_eq e1 "quasiquote").
+    { eapply pres_bind; [apply pres_lift|intros x _]. apply IHq. }
+    destruct (sym_eq e1 "quote").
+    { eapply pres_bind; [apply pres_lift|intros x _]. apply f_quote_ok. }
+    destruct (sym_eq e1 "if"); [apply f_if_ok|].
+    destruct (sym_eq e1 "set!"); [apply f_set_ok|]. apply f_app_ok.
+  - (* variable reference *)
+    destruct (is_primitive_symbol (CSym s)); [apply pres_fail|].
+    eapply pres_bind; [apply pres_put_cell_m|intros r _].
+    eapply pres_bind; [apply pres_location_operand|intros o Ho]. apply pres_ret.
+    apply (ext_emits l [VOp OMov; o; VAcc]). destruct o; try discriminate Ho; reflexivity.
+Qed.
+
+Lemma f_items_ok depth its : forall lam, pres (f_items cq depth its lam) (ext lam).
+Proof.
+  induction its as [|it r IH]; intros lam; cbn [f_items]; [apply pres_ret; apply ext_refl|].
+  eapply pres_bind; [apply IHq|intros lam' H'].
+  apply (pres_weaken _ _ _ (IH (emit_op lam' OVPushAcc))). intros l2 H2.
+  eapply ext_trans; [apply (ext_emits lam [VOp OPushAcc]); reflexivity|].
+  eapply ext_trans; [exact H'|]. eapply ext_trans; [|exact H2].
+  apply (ext_emits lam' [VOp OVPushAcc]). reflexivity.
+Qed.
+
+Lemma f_elems_ok depth r : forall lam cnt, pres (f_elems cq depth r lam cnt) (fun p => ext lam (fst (fst p))).
+Proof.
+  induction r; intros lam cnt; cbn [f_elems]; try (apply pres_ret; apply ext_refl).
+  eapply pres_bind; [apply IHq|intros lam' H'].
+  apply (pres_weaken _ _ _ (IHr2 (emit_op lam' OPushAcc) (cnt + 1))). intros p Hp.
+  eapply ext_trans; [exact H'|]. eapply ext_trans; [|exact Hp].
+  apply (ext_emits lam' [VOp OPushAcc]). reflexivity.
+Qed.
+
+Lemma f_conses_ok count k : forall i lam, ext lam (f_conses count k i lam).
+Proof.
+  induction k as [|k IH]; intros i lam; cbn [f_conses]; [apply ext_refl|]. cbv zeta.
+  eapply ext_trans; [|apply IH]. destruct (i <? count - 1).
+  - apply (ext_emits lam [VOp OCons; VOp OPushAcc]). reflexivity.
+  - apply (ext_emits lam [VOp OCons]). reflexivity.
+Qed.
+
+Theorem f_quasi_ok l e d : pres (f_quasi ce cq l e d) (ext l).
+Proof.
+  unfold f_quasi. destruct e; try apply f_quote_ok.
+  - cbv zeta. destruct (Datum.sym_is e1 UNQUOTE && (d =? 0)).
+    + eapply pres_bind; [apply pres_lift|intros d1 _].
+      eapply pres_bind; [apply pres_lift|intros x _]. apply IHe.
+    + eapply pres_bind; [apply f_elems_ok|intros [[l1 count] tailc] H1]. cbn [fst] in H1.
+      eapply pres_bind; [apply pres_maybe_put_cell_m|intros tv Htv]. apply pres_ret.
+      eapply ext_trans; [exact H1|]. eapply ext_trans; [|apply f_conses_ok].
+      apply (ext_emits l1 [VOp OPushImmediate; tv]). apply seg_pushimm, Htv.
+  - eapply pres_bind; [apply pres_vec_new, clean_nil|intros nv Hnv].
+    eapply pres_bind; [apply pres_hput, Hnv|intros nvp [a ->]]. cbv zeta.
+    eapply pres_ext_trans; [|apply f_items_ok].
+    apply (ext_emits l [VOp OMovImmediate; VPtr a; VAcc]). reflexivity.
+Qed.
+End Step.
+
+(* ------------------------------------------------------------------ the compiler *)
+Theorem compile_ok f :
+  (forall l tail e, pres (compile_expression f l tail e) (ext l)) /\
+  (forall l e d, pres (compile_quasiquote f l e d) (ext l)).
+Proof.
+  induction f as [|f [IHe IHq]].
+  - split; intros; intros s F _; exact I.
+  - split.
+    + intros l tail e. rewrite compile_expression_S. apply f_expr_ok; assumption.
+    + intros l e d. rewrite compile_quasiquote_S. apply f_quasi_ok; assumption.
+Qed.
+
+Theorem pres_compile_expression f l tail e : pres (compile_expression f l tail e) (ext l).
+Proof. apply (compile_ok f). Qed.
+Theorem pres_compile_quasiquote f l e d : pres (compile_quasiquote f l e d) (ext l).
+Proof. apply (compile_ok f). Qed.
+
+(* Vm::compile: macro expansion (reads the machine only), then compile_expression *)
+Theorem pres_compile l tail e : pres (compile l tail e) (ext l).
+Proof.
+  intros s F _. unfold compile. destruct (transform_expr TRANSFORM_FUEL s e); cbn [post]; auto.
+  apply (pres_compile_expression _ l tail a s F I).
+Qed.
+
+(* what compile_runnable returns is itself a good (unfinished) lambda *)
+Theorem pres_compile_runnable e : pres (compile_runnable e) (fun l => good (l_bc l)).
+Proof.
+  unfold compile_runnable. cbv zeta.
+  set (lam := emit_op (set_top (lambda_from_iof [] [] (lambda_new []) [] false)) OEnter).
+  assert (G : good (l_bc lam)).
+  { apply (good_emits (set_top (lambda_from_iof [] [] (lambda_new []) [] false)) [VOp OEnter]);
+      [apply good_nil|reflexivity]. }
+  eapply pres_bind; [apply pres_compile|intros lam1 H1].
+  eapply pres_bind.
+  - apply pres_put_lambda. apply (good_emits lam1 [VOp ORet]); [apply (ext_good _ _ H1 G)|reflexivity].
+  - intros lp [a ->]. apply pres_ret.
+    apply (good_emits (lambda_new [])
+             [VOp OPushImmediate; VArgc 0; VOp OMovImmediate; VPtr a; VAcc; VOp OCallAcc; VOp OHalt]);
+      [apply good_nil|reflexivity].
+Qed.
+
+(* (H3) Vm::prepare_eval keeps the invariant *)
+Theorem prepare_eval_finv e : pres (prepare_eval e) T.
+Proof.
+  unfold prepare_eval. eapply pres_bind; [apply pres_compile_runnable|intros entry G].
+  eapply pres_bind; [apply pres_put_lambda, G|intros lp _].
+  eapply pres_bind; [apply pres_as_ptr|intros p _]. apply pres_set_ip.
+Qed.
+
+(* (H2) the `eval` builtin keeps the invariant and returns a pointer *)
+Theorem b_eval_finv : pres b_eval no_lexptr.
+Proof.
+  unfold b_eval. eapply pres_bind; [apply pres_pop_argc|intros argc _].
+  eapply pres_bind; [apply pres_pop_deref|intros v _].
+  eapply pres_bind; [apply pres_to_cell|intros e _]. cbv zeta.
+  set (lam := emit_op (set_top (lambda_new [])) OEnter).
+  assert (G : good (l_bc lam)).
+  { apply (good_emits (set_top (lambda_new [])) [VOp OEnter]); [apply good_nil|reflexivity]. }
+  eapply pres_bind; [apply pres_compile|intros lam1 H1].
+  eapply pres_bind.
+  - apply pres_put_lambda. apply (good_emits lam1 [VOp ORet]); [apply (ext_good _ _ H1 G)|reflexivity].
+  - intros lp Hlp. eapply pres_bind; [apply pres_push; exact I|intros _ _].
+    eapply pres_bind; [apply pres_dec_ip|intros _ _]. apply pres_ret. apply isptr_clean, Hlp.
+Qed.
